@@ -1,6 +1,7 @@
 package main
 
 import (
+	"encoding/base64"
 	"fmt"
 	"go/types"
 	"html"
@@ -425,6 +426,10 @@ func (e *Engine) resolveIntrinsic(fn *ssa.Function, fi *fnInfo) intrinsicFn {
 	switch pkg {
 	case "gopkg.in/op/go-logging.v1":
 		return loggingIntrinsic
+	case "github.com/spf13/cobra", "github.com/spf13/pflag":
+		// cobra is not interpreted: its functions are no-ops returning zero values (only reached from cmd's
+		// package initialisation; harnesses do not go through cobra)
+		return noopIntrinsic
 	case "sync/atomic":
 		return atomicIntrinsic
 	case "sync":
@@ -1127,6 +1132,21 @@ func init() {
 		}
 		return str, true
 	})
+	b64 := func(in *Interp, fn *ssa.Function, a []Value, c *frame, s ssa.Instruction) (Value, bool) {
+		// yq only uses base64.StdEncoding (contract: the opaque Encoding object is the standard one)
+		if !allConcrete(a[1:]) {
+			unsup("base64 on symbolic data")
+		}
+		m := reflect.ValueOf(base64.StdEncoding).MethodByName(fn.Name())
+		if !m.IsValid() {
+			unsup("base64.Encoding.%s", fn.Name())
+		}
+		return in.nativeCall(m, a[1:], fn.Signature.Results()), true
+	}
+	for _, n := range []string{"EncodeToString", "DecodeString", "EncodedLen", "DecodedLen"} {
+		reg("(*encoding/base64.Encoding)."+n, b64)
+		reg("(encoding/base64.Encoding)."+n, b64)
+	}
 	reg("internal/abi.NoEscape", func(in *Interp, fn *ssa.Function, a []Value, c *frame, s ssa.Instruction) (Value, bool) {
 		return a[0], true
 	})
